@@ -363,6 +363,8 @@ def write_evidence(pid, mod, tier, seed, ok, n_planned, wall, known_seen, n_new,
         "wall_s": round(wall, 2),
         "violations": n_new,
     }
+    if os.environ.get("SIMJS_NO_EVIDENCE") == "1":   # development runs against scratch trees
+        return
     os.makedirs(os.path.join(VERIF, "evidence"), exist_ok=True)
     json.dump(ev, open(os.path.join(VERIF, "evidence", pid + ".json"), "w"), indent=1, sort_keys=True, default=repr)
 
